@@ -52,6 +52,13 @@ func specs() []*Spec {
 			Assume: trusted,
 		},
 		{
+			ID:    "C17",
+			Units: []Unit{{Pkg: "", Job: "C17", Quick: []string{"default", "force32bit"}, Thorough: []string{"default", "force32bit", "386"}}},
+			Rule:  "E1: the multi-scalar routine called directly on heaps filled as VerifyBatch fills them (count 2n+1; quick n in {4..8,33,63,64}, thorough every n in 4..64) x 20 scalar profiles (hash-like, r=0/1/equal/one-nonzero/first-zero/max, S in top slice, common factors 2,3,4,6,8,2^64,3*2^100 so that the final Bos-Coster scalar is > 1, 56/112/168-bit maxima, 2^127, L-1) x point profiles (honest, same point, P/-P pairs, identity, mixed-order, all torsion) vs sum [s_i]P_i computed by the model through known discrete logs; E2: all sequences of <= 3 chunk sizes from {4,5,63,64} on one reused heap vs a fresh heap; vartime helpers on all pairs of limb-boundary values for every admissible limbSize vs big.Int; end to end with the fallback hook: all-valid batches of sizes 4..200 (quick: 32 sizes around chunk boundaries) x 4 compositions x 3 variants x entropy {zero, 4 DRBG, 0xff, const}: accepted with zero fallbacks (degenerate constant streams reported, not required). non-trivial = collection not all-zero.",
+			Assume: append(trusted, "points are supplied through UnpackVartime and read back through Pack (decided by C10)"),
+		},
+		// NEXT-SPEC
+		{
 			ID: "C04",
 			Units: []Unit{
 				{Pkg: "", Job: "C04", Quick: []string{"default", "force32bit"}, Thorough: []string{"default", "force32bit"}},
